@@ -28,7 +28,7 @@ Print Assumptions C05_pack_roundtrip.
    (TrySplitTable: cells equal to their row / column default are blanked before packing; Action() answers
    ERROR_ACTION on a negative slot) returns exactly the entry of the uncompressed table, for every dense
    table without 0 entries whose column 0 is the error code, provided no goto column can land on a
-   negative slot (a boolean condition on the packed arrays, evaluated on every table of every run) *)
+   negative slot (a boolean condition on the packed arrays, evaluated on the arrays of the implementation for every corpus grammar of every run; the two conditions on the dense table are theorems for emitted tables: C05_conditions_hold) *)
 Theorem C05_lookup :
   forall (dense : list (list Z)) (nterm nsyms : nat),
     (0 < nsyms)%nat ->
@@ -57,3 +57,48 @@ Theorem C05_packed_agrees :
          packed_agrees gi t.
 Proof. exact PipelineRun.packed_agrees_from_conditions. Qed.
 Print Assumptions C05_packed_agrees.
+
+From YG Require Import LRBase CompleteDriver Pipeline PipelineConds.
+Close Scope Z_scope.
+Open Scope nat_scope.
+
+(* two of the three conditions hold for every table generate_tables emits: no cell is 0, and the column of the internal start symbol holds the error code (LR(1) lookaheads are terminals) *)
+Theorem C05_conditions_hold :
+  forall gi : ginfo,
+         (forall r d : nat, nth_error (rhs_of (gi_rules gi) r) d <> Some 0) ->
+         lhs_of (gi_rules gi) 0 = 0 ->
+         (forall r d : nat, nth_error (rhs_of (gi_rules gi) r) d <> Some eof) ->
+         rhs_of (gi_rules gi) 0 = [start_user (gi_rules gi)] ->
+         ~ is_nt (gi_rules gi) eof ->
+         (forall (seq : list nat) (l : nat),
+          ~ is_nt (gi_rules gi) l -> exists b : nat, first_seq (gi_rules gi) (seq ++ [l]) b) ->
+         eof < gi_nsyms gi ->
+         forall t : tables,
+         generate_tables gi = inr t ->
+         (forall s a : nat, s < length (t_aut t) -> a < gi_nsyms gi -> cellz (t_dense t) s a <> 0%Z) /\
+         (forall s : nat, s < length (t_aut t) -> cellz (t_dense t) s 0 = err_code (length (t_aut t))).
+Proof. exact PipelineConds.pipeline_cells. Qed.
+Print Assumptions C05_conditions_hold.
+
+From YG Require Import LRBase CompleteDriver Pipeline PipelineRun PipelineConds.
+Close Scope Z_scope.
+Open Scope nat_scope.
+
+(* so the packed lookups of an emitted table equal its dense cells as soon as no goto column can land on a negative slot: one boolean condition on the offset vector, evaluated on the implementation's arrays for every corpus grammar on every run *)
+Theorem C05_packed_agrees_offsets :
+  forall gi : ginfo,
+         (forall r d : nat, nth_error (rhs_of (gi_rules gi) r) d <> Some 0) ->
+         lhs_of (gi_rules gi) 0 = 0 ->
+         (forall r d : nat, nth_error (rhs_of (gi_rules gi) r) d <> Some eof) ->
+         rhs_of (gi_rules gi) 0 = [start_user (gi_rules gi)] ->
+         ~ is_nt (gi_rules gi) eof ->
+         (forall (seq : list nat) (l : nat),
+          ~ is_nt (gi_rules gi) l -> exists b : nat, first_seq (gi_rules gi) (seq ++ [l]) b) ->
+         eof < gi_nsyms gi ->
+         forall t : tables,
+         generate_tables gi = inr t ->
+         (forall s : nat,
+          s < length (t_aut t) -> (0 <= nth s (p_off (t_packed t)) 0 + Z.of_nat (S (gi_nterm gi)))%Z) ->
+         packed_agrees gi t.
+Proof. exact PipelineConds.packed_agrees_from_offsets. Qed.
+Print Assumptions C05_packed_agrees_offsets.
